@@ -61,3 +61,104 @@ theorem get_range32_wraps : getRange32 4194304 1024 10 = (0, 10) ∧ rangeSpec 4
   decide
 
 end ZV.C18
+
+namespace ZV.C18
+open ZV ZV.Rpc
+
+/-- T2 `by_page_height`: for every chain height H, page index i (with i+1 < 2^32) and page size c, the page is
+    empty when the chain has at most i·c elements, and otherwise requests exactly the height interval
+    [max 1 (H − (i+1)·c + 1), H − i·c]. -/
+theorem by_page_height (H i c : Nat) (hi : i + 1 < two32) :
+    pageRequest H i c =
+      if H ≤ i * c ∨ c = 0 then none
+      else some (max 1 (H + 1 - (i + 1) * c), min c (H - i * c)) := by
+  unfold pageRequest
+  have hm : (i + 1) % two32 = i + 1 := Nat.mod_eq_of_lt hi
+  simp only [hm]
+  have e : ((i + 1 : Nat) : Int) * (c : Int) = ((i * c + c : Nat) : Int) := by
+    push_cast; rw [Int.add_mul]; simp
+  rw [e]
+  have e2 : (i + 1) * c = i * c + c := by rw [Nat.add_mul]; simp
+  rw [e2]
+  generalize i * c = ic
+  by_cases hT : (1 - ((H : Int) - ((ic + c : Nat) : Int) + 1) > 0)
+  · simp only [hT, if_true]
+    by_cases h1 : H ≤ ic ∨ c = 0
+    · rw [if_pos h1, if_pos (by omega)]
+    · rw [if_neg h1, if_neg (by omega)]
+      congr 1
+      simp only [Prod.mk.injEq]
+      constructor <;> omega
+  · simp only [hT, if_false]
+    by_cases h1 : H ≤ ic ∨ c = 0
+    · rw [if_pos h1, if_pos (by omega)]
+    · rw [if_neg h1, if_neg (by omega)]
+      congr 1
+      simp only [Prod.mk.injEq]
+      constructor <;> omega
+
+/-- the page never asks for more than the page size and never reaches below height 1 or above H -/
+theorem page_request_bounds (H i c s n : Nat) (hi : i + 1 < two32) (h : pageRequest H i c = some (s, n)) :
+    1 ≤ s ∧ 1 ≤ n ∧ n ≤ c ∧ s + n - 1 = H - i * c ∧ s + n - 1 ≤ H := by
+  rw [by_page_height H i c hi] at h
+  split at h
+  · cases h
+  · rename_i h1
+    simp only [Option.some.injEq, Prod.mk.injEq] at h
+    have e2 : (i + 1) * c = i * c + c := by rw [Nat.add_mul]; simp
+    rw [e2] at h
+    generalize i * c = ic at *
+    omega
+
+/-- consecutive pages are adjacent: page i+1 ends right below where page i starts; page 0 ends at the frontier.
+    Hence paging through all indices yields every height 1..H exactly once, newest first. -/
+theorem pages_adjacent (H i c s n s' n' : Nat) (hi : i + 2 < two32)
+    (h : pageRequest H i c = some (s, n)) (h' : pageRequest H (i + 1) c = some (s', n')) :
+    s' + n' = s := by
+  rw [by_page_height H i c (by omega)] at h
+  rw [by_page_height H (i + 1) c (by omega)] at h'
+  split at h
+  · cases h
+  · split at h'
+    · cases h'
+    · simp only [Option.some.injEq, Prod.mk.injEq] at h h'
+      have e2 : (i + 1) * c = i * c + c := by rw [Nat.add_mul]; simp
+      have e3 : (i + 1 + 1) * c = i * c + c + c := by rw [Nat.add_mul, Nat.add_mul]; simp
+      rw [e2] at h h'
+      rw [e3] at h'
+      generalize i * c = ic at *
+      omega
+
+theorem first_page_ends_at_frontier (H c s n : Nat) (h : pageRequest H 0 c = some (s, n)) : s + n - 1 = H := by
+  have := page_request_bounds H 0 c s n (by decide) h
+  omega
+
+/-- T3 `by_height_bounds`: a by-height query returns only heights that exist, inside the requested window, in
+    ascending order without repetition, and never more than `count` of them -/
+theorem by_height_bounds (H h count : Nat) :
+    (∀ x ∈ byHeight H h count, 1 ≤ x ∧ x ≤ H ∧ h ≤ x ∧ x < h + count) ∧ (byHeight H h count).length ≤ count ∧
+    (byHeight H h count).Pairwise (· < ·) := by
+  unfold byHeight
+  refine ⟨?_, ?_, ?_⟩
+  · intro x hx
+    simp only [List.mem_filter, List.mem_map, List.mem_range, decide_eq_true_eq] at hx
+    obtain ⟨⟨k, hk, rfl⟩, h1, h2, _⟩ := hx
+    omega
+  · exact Nat.le_trans (List.length_filter_le _ _) (by simp)
+  · apply List.Pairwise.filter
+    rw [List.pairwise_map]
+    exact List.Pairwise.imp (fun hab => by omega) List.pairwise_lt_range
+
+/-- every existing height of the window is returned -/
+theorem by_height_complete (H h count x : Nat) (hH : H < two64) (h1 : 1 ≤ x) (h2 : x ≤ H) (h3 : h ≤ x) (h4 : x < h + count) :
+    x ∈ byHeight H h count := by
+  unfold byHeight
+  simp only [List.mem_filter, List.mem_map, List.mem_range, decide_eq_true_eq]
+  exact ⟨⟨x - h, by omega, by omega⟩, h1, h2, by omega⟩
+
+/-- N (excluded point, shown for completeness): at pageIndex = 2^32 − 1 the uint32 increment wraps to 0 and the
+    request starts above the frontier — the page is empty, never a repeat of earlier elements -/
+theorem last_index_wraps_to_empty : pageHeights 100 4294967295 10 = [] ∧ pageHeights 100 0 10 = [100, 99, 98, 97, 96, 95, 94, 93, 92, 91] := by
+  decide
+
+end ZV.C18
